@@ -308,7 +308,7 @@ def check_lambda_row(ctx, st, r, names, forms, space):
     envs = envs_for(names, k)
     if len(envs) != len(exp):
         raise MachineryError('table of %s has %d points, expected %d' % (src, len(exp), len(envs)))
-    got = table_of_code(compile(src, '<c03>', 'eval'), envs)
+    got = table_of_code(px.compile_src(src), envs)
     selfcheck('Eval', src, got, exp, 'assignments of %s' % names[:k])
     st.selfcheck_points += len(exp)
     st.c['trees'] += 1
@@ -362,7 +362,7 @@ def check_gen_row(ctx, st, r, names, forms, space):
     for ci, comp in enumerate(node.generators):
         selfcheck('CondVal (clause %d)' % (ci + 1), src, filter_table(comp.ifs, envs_for(names, r['conds'][ci]['k'])), r['conds'][ci]['tab'],
                   'assignments of %s' % names)
-    code0 = compile(src, '<c03>', 'eval')
+    code0 = px.compile_src(src)
     for ri, env in enumerate(RUN_ENVS):
         got = run_generator(code0, env)
         if not px.same(got, r['runs'][ri]):
